@@ -357,6 +357,10 @@ func lexShapes() []*E {
 		vr("mp"), vr("m0"), vr("l0"), vr("l"), vr("und"), vr("n"), glob("G_I", data.Int(7)), bin("-", glob("G_I", data.Int(7)), I(1)), un("-", glob("G_I", data.Int(7))),
 		bin("and", vr("t"), un("not", vr("f"))), bin("or", vr("f"), bin("==", I(-1), un("-", I(1)))),
 		call("range", I(2)), call("augmentMap", vr("mp"), &E{K: "map", Keys: []string{"k"}, A: []*E{I(-5)}}),
+		// a binary minus directly after every kind of access (the scanner decides between sign and operator by the previous token)
+		bin("-", vr("mp", Acc{Kind: "dot", Key: "i"}), I(1)), bin("-", vr("mp", Acc{Kind: "qdot", Key: "i"}), I(1)), bin("-", vr("l", Acc{Kind: "idx", Idx: 0}), I(1)),
+		bin("-", vr("l", Acc{Kind: "qidx", Idx: 0}), I(1)), bin("-", vr("l", Acc{Kind: "br", E: I(0)}), vr("i")), bin("-", vr("l", Acc{Kind: "qbr", E: I(0)}), un("-", vr("i"))),
+		bin("-", vr("mp", Acc{Kind: "qbr", E: S("i")}), I(-1)), bin("-", call("length", vr("l")), I(1)), bin("-", bin("+", vr("i"), I(1)), I(1)), bin("-", S("7"), I(1)),
 	}
 }
 
